@@ -207,6 +207,11 @@ def bs_remove(it, sr, k):
 @model(_BS + r'contains::<.*>')
 def bs_contains(it, sr, k):
     return any(key_eq(it, kk, deref_all(k)) for kk in deref_all(sr).items)
+@model(_BS + r'retain::<.*>')
+def bs_retain(it, sr, clo):
+    s = deref_all(sr)
+    s.items[:] = [k for k in list(s.items) if B(it, it.call_closure(clo, Ref(Box_(k))))]
+    return []
 @model(_BS + r'clear')
 def bs_clear(it, s): deref_all(s).items[:] = []; return []
 @model(_BS + r'range::<.*>')
